@@ -293,7 +293,7 @@ func (g G) Value(label string) *Node {
 	case 22:
 		if label == "sub.ret" {
 			// a return value that starts with "(" is the documented `return (state)` form, not a grouped expression
-			return Infix(Group(Ident("req.http.A")), "&&", Prefix("!", Group(Ident("req.http.B"))))
+			return Infix(Ident("req.http.A"), "&&", Prefix("!", Group(Ident("req.http.B"))))
 		}
 		return Group(Infix(Group(Ident("req.http.A")), "&&", Prefix("!", Group(Ident("req.http.B")))))
 	default:
